@@ -352,6 +352,11 @@ static ares_status_t parse_nameserver(ares_buf_t *buf, ares_sconfig_t *sconfig)
       return status;
     }
 
+    /* portstr holds at most 5 digits, but 65536..99999 is no port */
+    if (atoi(portstr) > 65535) {
+      return ARES_EBADSTR;
+    }
+
     sconfig->udp_port = (unsigned short)atoi(portstr);
     sconfig->tcp_port = sconfig->udp_port;
   }
